@@ -422,3 +422,7 @@ mod tests {
         assert_eq!(sliced_values, &[2]);
     }
 }
+
+#[cfg(kani)]
+#[path = "/verif/kani/arrow-buffer/buffer/run.rs"]
+mod verif_kani;
